@@ -249,8 +249,9 @@ def body(ctx):
     missing_ops(ctx, prog)
     open_channel(ctx, prog, ex, viol)
     # what an operation returns names what later operations are sent for (a Queue's name, a Consumer's tag): exactly the reply's values
-    import c04
+    import c04, c11
     c04.api_returns(ctx, prog)
+    c11.consumer_api(ctx, prog)    # one Basic.Cancel per consumer, whatever the first attempt returned and however the consumer is dropped
     for v in viol:
         if not v.get('reported'):
             ctx.inconclusive.append(f"C12 counterexample without native replay: {str(v)[:400]}")
